@@ -110,6 +110,41 @@ def run_verus(unit, rlimit=None, extra_args=()):
         r.wall_s = time.time() - t0
         return r
     path = os.path.join(outdir, unit + '.rs')
+    # Callees the extracted functions call but the template does not name (e.g. a helper added by
+    # a later change) are pulled in mechanically, WITHOUT a contract: the caller is then checked
+    # against `true` for them, so a helper that breaks the caller's postcondition fails there.
+    auto = []
+    for attempt in range(4):
+        open(path, 'w').write(rend['text'])
+        rc0, out0, err0, _, _ = _sh(['verus', path, '--no-verify', '--triggers-mode', 'silent'], 300, cwd=outdir)
+        missing = re.findall(r"no method named `(\w+)` found for (?:struct|enum|mutable reference|reference) `(?:&(?:mut )?)?([A-Za-z_][A-Za-z0-9_]*)", err0)
+        missing += [(m, None) for m in re.findall(r"cannot find function `(\w+)` in this scope", err0)]
+        added = False
+        for (fn_name, ty) in dict.fromkeys(missing):
+            if (fn_name, ty) in [(a[0], a[1]) for a in auto]:
+                continue
+            for rel in dict.fromkeys(f['file'] for f in rend['functions']):
+                try:
+                    src = vx.Source(REPO, rel)
+                except vx.Inconclusive:
+                    continue
+                cands = vx.find_method(src, ty, fn_name) if ty else vx.find_free_fn(src, fn_name)
+                if cands:
+                    header, selector = cands[0]
+                    try:
+                        extra = vx.render_extra(REPO, rel, header, selector)
+                    except vx.Inconclusive:
+                        continue
+                    idx = rend['text'].rfind('} // verus!')
+                    if idx < 0:
+                        break
+                    rend['text'] = rend['text'][:idx] + extra + '\n' + rend['text'][idx:]
+                    auto.append((fn_name, ty, rel, selector))
+                    added = True
+                    break
+        if not added:
+            break
+    r.extra['auto_extracted_callees'] = ['%s (%s) from %s' % (a[0], a[3], a[2]) for a in auto]
     open(path, 'w').write(rend['text'])
     json.dump({str(k): v for k, v in rend['linemap'].items()}, open(path + '.linemap.json', 'w'))
     r.functions = rend['functions']
@@ -203,6 +238,11 @@ def run_verus(unit, rlimit=None, extra_args=()):
     for e in fails:
         ln = e['line']
         fn, props = fn_at(ln)
+        if '(auto-extracted callee: no contract)' in fn:
+            # obligations inside a function that carries no contract (overflow, panics of its own)
+            # are not part of any property statement: noted, not a verdict
+            r.extra.setdefault('ignored_failures_in_uncontracted_callees', []).append('%s: %s' % (fn, e['message']))
+            continue
         tags = []
         for l2 in (e.get('lines') or [ln]):
             if 1 <= l2 <= len(lines):
@@ -214,6 +254,10 @@ def run_verus(unit, rlimit=None, extra_args=()):
                            'repo_file': rp[0] if rp else None, 'repo_line': rp[1] if rp else None,
                            'tags': sorted(set(tags)), 'text': lines[ln - 1].strip() if 1 <= ln <= len(lines) else '',
                            'secondary': e.get('secondary', [])})
+    if not r.failures:
+        r.status = INCONCLUSIVE
+        r.reason = 'only obligations inside auto-extracted, uncontracted callees failed: %s' % r.extra.get('ignored_failures_in_uncontracted_callees')
+        return r
     r.status = VIOLATION
     r.reason = '%d obligation(s) not discharged' % len(r.failures)
     return r
@@ -254,9 +298,9 @@ def _function_index(lines):
     `// from ...` markers, `//!props` lines and plain `fn` headers of the rendered file."""
     marks = []
     for n, l in enumerate(lines, 1):
-        m = re.match(r'^// from (\S+):(\d+)\s+\[(.*)\]', l)
+        m = re.match(r'^// from (\S+):(\d+)\s+\[(.*?)\](.*)$', l)
         if m:
-            marks.append((n, m.group(3), None))
+            marks.append((n, m.group(3) + m.group(4).rstrip(), None))
             continue
         m = re.match(r'^\s*(?:pub\s+)?(?:open\s+|closed\s+)?(?:proof|spec)\s+fn\s+(\w+)', l)
         if m:
